@@ -281,6 +281,14 @@ func equal(lhsV, rhsV reflect.Value) bool {
 	if lhsV.Kind() == reflect.Interface {
 		lhsV = lhsV.Elem()
 	}
+	if rhsV.Kind() == reflect.Interface {
+		rhsV = rhsV.Elem()
+	}
+	if lhsModule, rhsModule := moduleOf(lhsV), moduleOf(rhsV); lhsModule != nil || rhsModule != nil {
+		// a module is equal to itself only: its tables are guarded by its own lock
+		// and are not walked here
+		return lhsModule == rhsModule
+	}
 	if lhsV.Kind() == reflect.Ptr && !lhsV.IsNil() {
 		lhsV = lhsV.Elem()
 	}
@@ -317,6 +325,16 @@ func equal(lhsV, rhsV reflect.Value) bool {
 	}
 
 	return reflect.DeepEqual(lhsV.Interface(), rhsV.Interface())
+}
+
+// moduleOf returns the module v is, or nil
+func moduleOf(v reflect.Value) *env.Env {
+	if v.Kind() == reflect.Ptr && !v.IsNil() && v.CanInterface() {
+		if module, ok := v.Interface().(*env.Env); ok {
+			return module
+		}
+	}
+	return nil
 }
 
 // equalNums returns true when the two numeric values are equal.
